@@ -431,7 +431,10 @@ def gen_long_chain_case(rng, nres):
     edges is unrealised, so each must be named in a warning of its own (many missing links in one molecule)"""
     case = G.gen_case(rng, max_res=2, removal=False)
     case["links"] = []
-    resname = case["blocks"][0]["name"]
+    block = case["blocks"][0]
+    resname = block["name"]
+    # (an .itp block may carry dangling interactions, which are links of their own: without them no edge is realised)
+    block["ixns"] = [x for x in block["ixns"] if all(a < len(block["atoms"]) for a in x[1])]
     case["graph"] = dict(nodes=[[k, k + 1, resname] for k in range(nres)],
                          edges=[[k, k + 1, None] for k in range(nres - 1)])
     return case
@@ -1053,9 +1056,14 @@ def one_gate_case(ctx, top, full):
         if full:
             out = os.path.join(tmp, "out.gro")
             try:
-                gc.gen_coords(toppath=pathlib.Path(path), outpath=pathlib.Path(out), name="verif", box=[8.0, 8.0, 8.0],
-                              **coord_arguments(top, tmp, 8.0))
+                # (a molecule that should have been refused may make the builder loop for ever: bounded, and a run
+                # that had to be stopped is neither a refusal nor a structure)
+                with common.time_limit(60):
+                    gc.gen_coords(toppath=pathlib.Path(path), outpath=pathlib.Path(out), name="verif", box=[8.0, 8.0, 8.0],
+                                  **coord_arguments(top, tmp, 8.0))
                 full_result = "built" if os.path.exists(out) else "no-output"
+            except common.CaseTimeout:
+                full_result = "stopped-after-60s"
             except IOError:
                 full_result = "refused" if not os.path.exists(out) else "refused-but-wrote"
             except Exception as err:  # pylint: disable=broad-except
